@@ -68,3 +68,26 @@ package local
 //@   at call core.Transition assert[limit] e.maximumEntryCount != 0 ==> resultingEntryCount == rcount(transitions, len(transitions), old(e.lastScanEntryCount)) && resultingEntryCount <= e.maximumEntryCount
 //@   ensures[consumed] !e.readOnly && old(e.scannedSinceLastTransitionCall) ==> !e.scannedSinceLastTransitionCall || result3 != nil
 //@   loop 1 invariant[limit] rangeindex < len(transitions) && resultingEntryCount == rcount(transitions, rangeindex + 1, old(e.lastScanEntryCount))
+
+// ------------------------------------------------------------------ C42
+// Stale snapshots. A Scan that does not accelerate returns a snapshot built
+// during that call; a Transition that ran core.Transition and changed the disk
+// (some result differs from the transition's old entry) under poll-based
+// watching leaves acceleration disabled and strobes the poll signal, and under
+// recursive watching with acceleration puts every transition root on the
+// recheck list.
+//@ func (*endpoint).scan
+//@   requires e != nil
+//@   ensures[fresh] result == nil ==> e.snapshot != nil && (baseline == nil ==> fresh(e.snapshot))
+//@   ensures[kept] result != nil ==> e.snapshot == old(e.snapshot) && e.accelerate == old(e.accelerate)
+//@   ensures[kept] e.accelerate == old(e.accelerate) && e.watchMode == old(e.watchMode)
+//@ func (*endpoint).Scan
+//@   ensures[fresh] result1 == nil && (!old(e.accelerate) || full) ==> fresh(result0)
+//@ pred ranTransition(e, transitions) = !e.readOnly && old(e.scannedSinceLastTransitionCall) && (e.maximumEntryCount == 0 || rcount(transitions, len(transitions), old(e.lastScanEntryCount)) <= e.maximumEntryCount)
+//@ pred changedDisk(results, transitions) = exists r in 0..len(results) :: !core.eequal(results[r], transitions[r].Old, true)
+//@ func (*endpoint).Transition
+//@   ensures[stale] result3 == nil && ranTransition(e, transitions) && e.watchMode == reifiedWatchModePoll && changedDisk(result0, transitions) ==> !e.accelerate
+//@   ensures[strobe] result3 == nil && ranTransition(e, transitions) && e.watchMode == reifiedWatchModePoll && changedDisk(result0, transitions) ==> strobes[e.pollSignal] > old(strobes[e.pollSignal])
+//@   ensures[recheck] result3 == nil && ranTransition(e, transitions) && e.watchMode == reifiedWatchModeRecursive && e.accelerate && changedDisk(result0, transitions) ==> forall t in 0..len(transitions) :: has(e.recheckPaths, transitions[t].Path)
+//@   loop 3 invariant[stale] rangeindex < len(results) && (transitionMadeChanges <==> exists r in 0..rangeindex+1 :: !core.eequal(results[r], transitions[r].Old, true))
+//@   loop 4 invariant[recheck] rangeindex < len(transitions) && forall t in 0..rangeindex+1 :: has(e.recheckPaths, transitions[t].Path)
